@@ -97,6 +97,7 @@ impl C04Deep {
             sort_rank: (0..ncand).collect(),
             favored: None,
             locked: None,
+            lock_gone: false,
             hint: hint.clone(),
             unlisted: vec![],
         };
